@@ -2,7 +2,7 @@ SPECIFICATION MCSpec
 CONSTANTS
   MaxCorrupt = 1
   BlockLens = {1, 2}
-  TableIds = {1, 2, 3, 4}
+  TableIds = {1, 2, 3, 4, 6}
   Reads = FALSE
   MaxLevel = 3
 VIEW View
